@@ -84,3 +84,29 @@ package vestingsc
 //@   ensures err == nil ==> d != nil && d.ID == destID && (exists i in 0..len(vp.Destinations) witness $idx :: vp.Destinations[i] == d)
 //@   ensures err != nil ==> d == nil
 //@   modifies nothing
+
+// ---------------------------------------------------------------- governance: update_config (C48)
+// The vesting configuration is written back only by the contract owner (the owner recorded in the
+// stored configuration BEFORE the update is applied), only after every change was applied without
+// error, and only in a state that passed config.validate() after the last change.
+//@ func (*VestingSmartContract).getConfig
+//@   trusted
+//@   ensures err == nil ==> conf != nil && fresh(conf)
+//@   ensures err != nil ==> conf == nil
+//@   modifies nothing
+//@ func (*config).update
+//@   trusted
+//@   modifies c.$all, $cfgValid
+//@   ensures !$cfgValid[obj(c)]
+//@   ensures forall o int :: o != obj(c) ==> $cfgValid[o] == old($cfgValid[o])
+//@ func (*config).validate
+//@   trusted
+//@   modifies $cfgValid
+//@   ensures $cfgValid[obj(c)] == (err == nil)
+//@   ensures forall o int :: o != obj(c) ==> $cfgValid[o] == old($cfgValid[o])
+//@ func (*VestingSmartContract).updateConfig
+//@   prop C48
+//@   requires txn != nil && balances != nil
+//@   at-call update assert[owner-only] conf.OwnerId == txn.ClientID
+//@   at-call InsertTrieNode assert[validated-when-saved] obj($arg2) == obj(conf) && $cfgValid[obj(conf)]
+//@   ensures[rejected-change-saves-nothing] err != nil ==> $nsaved == old($nsaved)
